@@ -135,26 +135,33 @@ class E2E:
         self.current = {}   # sid -> (vary lines, flags) of the step in flight
         self.died = []
 
-    def squid_for(self, slot):
-        if slot["squid"] is None or slot["n"] >= self.ROTATE or not slot["squid"].alive():
-            if slot["squid"] is not None:
-                if not slot["squid"].alive():
-                    self.died.append(slot["squid"].problems()[:3])
-                slot["squid"].stop()
-            slot["squid"] = None
-            for attempt in range(6):
-                sq = self.rig.Squid(self.stage, conf=self.CONF)
-                try:
-                    slot["squid"] = sq.start(wait=40.0)
-                    break
-                except RuntimeError:
-                    # the rig picks a free port before squid binds it: another process may take it in between
-                    sq.stop()
-                    if attempt == 5:
-                        raise
-            slot["n"] = 0
-        slot["n"] += 1
-        return slot["squid"]
+    def fresh_squid(self, slot):
+        """(re)start the slot's squid. Only ever called while no scenario thread is running: subprocess with a
+        preexec_fn forks the interpreter, and a fork taken while other threads hold locks can hang the child."""
+        if slot["squid"] is not None:
+            if not slot["squid"].alive():
+                self.died.append(slot["squid"].problems()[:3])
+            slot["squid"].stop(kill=True)
+        slot["squid"] = None
+        for attempt in range(6):
+            sq = self.rig.Squid(self.stage, conf=self.CONF)
+            try:
+                slot["squid"] = sq.start(wait=40.0)
+                break
+            except RuntimeError:
+                # the rig picks a free port before squid binds it: another process may take it in between
+                sq.stop(kill=True)
+                if attempt == 5:
+                    raise
+        slot["n"] = 0
+
+    def prepare(self, nlines):
+        """main thread, before a batch: every slot gets a live squid with room for its share of the batch"""
+        share = (nlines + self.W - 1) // self.W
+        for slot in self.slots:
+            sq = slot["squid"]
+            if sq is None or not sq.alive() or slot["n"] + share > 2 * self.ROTATE:
+                self.fresh_squid(slot)
 
     def handler(self, sid):
         def h(req):
@@ -185,7 +192,10 @@ class E2E:
             k = self.n
         slot = self.slots[k % self.W]
         with slot["lock"]:
-            sq = self.squid_for(slot)
+            sq = slot["squid"]
+            if sq is None or not sq.alive():
+                return "abort:squid-unavailable"      # it died in an earlier scenario of this batch (reported there)
+            slot["n"] += 1
             sid = "c%d" % k
             self.origin.on(sid, self.handler(sid))
             url = self.origin.url(sid, "p")
@@ -217,8 +227,6 @@ class E2E:
                 if not sq.alive():
                     self.crashes += 1
                     why = " ".join(sq.problems()[:2]).replace(" ", "_")[:200]
-                    slot["squid"].stop(kill=True)
-                    slot["squid"] = None
                     return "abort:squid-died " + why
                 if r is None or not r["complete"]:
                     obs.append("noresp")
@@ -264,9 +272,23 @@ class E2E:
             return " ".join(obs) + " ; marks=" + (",".join(sorted(marks)) if marks else ".") + " base=%d" % base
 
     def run(self, lines):
+        out = []
+        batch = self.W * self.ROTATE
         try:
-            with ThreadPoolExecutor(max_workers=self.W) as ex:
-                return list(ex.map(self.one, lines))
+            for a in range(0, len(lines), batch):
+                part = lines[a:a + batch]
+                self.prepare(len(part))
+                with ThreadPoolExecutor(max_workers=self.W) as ex:
+                    res = list(ex.map(self.one, part))
+                # scenarios that met a dead squid run again on fresh instances (the one that killed it keeps its abort)
+                redo = [i for i, o in enumerate(res) if o == "abort:squid-unavailable"]
+                if redo:
+                    self.prepare(len(redo))
+                    with ThreadPoolExecutor(max_workers=self.W) as ex:
+                        for i, o in zip(redo, ex.map(self.one, [part[i] for i in redo])):
+                            res[i] = o
+                out += res
+            return out
         except BaseException:
             self.close()     # never leave squid processes behind
             raise
